@@ -3,7 +3,7 @@
 #[cfg(kani)]
 pub(crate) mod verif_kani_pool {
     use super::*;
-    use crate::opaque::slab::verif_kani::{
+    use crate::opaque::slab::verif_kani_slab::{
         any_wf_probe_slab, any_wf_slab, base_of, expected_object_addr, occupied, slab_wf, Probe, CHECK_AT_DROP, DOUBLE_DROP, DROPPED_IDS,
         DROPS, WF_AT_DROP,
     };
@@ -450,9 +450,9 @@ pub(crate) mod verif_kani_pool {
         ($name:ident, $unwind:expr, $body:expr) => {
             #[kani::proof]
             #[kani::unwind($unwind)]
-            #[kani::stub(crate::opaque::slab::catch_unwind, crate::opaque::slab::verif_kani::catch_unwind_stub)]
-            #[kani::stub(crate::opaque::slab::resume_unwind, crate::opaque::slab::verif_kani::resume_unwind_stub)]
-            #[kani::stub(std::thread::panicking, crate::opaque::slab::verif_kani::panicking_stub)]
+            #[kani::stub(crate::opaque::slab::catch_unwind, crate::opaque::slab::verif_kani_slab::catch_unwind_stub)]
+            #[kani::stub(crate::opaque::slab::resume_unwind, crate::opaque::slab::verif_kani_slab::resume_unwind_stub)]
+            #[kani::stub(std::thread::panicking, crate::opaque::slab::verif_kani_slab::panicking_stub)]
             fn $name() {
                 $body
             }
